@@ -184,6 +184,7 @@ func checkC20(w *World, r *Report) {
 	w.checkEntriesOnlyUnderKeys(r, keyT, entryT)
 	w.checkAttributeAccessCoversMaps(r, keyT)
 	checkMapKeysAreChecked(w, r)
+	checkTypedMapLookupsSeeAbsence(w, r)
 }
 
 // keyRef: the cache key as one function sees it — a local literal (typ/attr = the values stored
@@ -1574,4 +1575,69 @@ func checkMapKeysAreChecked(w *World, r *Report) {
 		})
 	}
 	r.floor("reflect map lookups", n, 1)
+}
+
+// checkTypedMapLookupsSeeAbsence — R20.10: a key that is not there yields an empty value.  On
+// render paths no plain `m[key]` (without the comma-ok form) on a map whose element type is not an
+// interface is boxed and returned as a template value: for a missing key Go hands out the element
+// type's zero value — 0, false, "" — and x.name / x['name'] would answer with that instead of
+// nothing, so `x.missing is defined`, `default` and truthiness see a value that is not in the map.
+func checkTypedMapLookupsSeeAbsence(w *World, r *Report) {
+	reach := w.renderReachable()
+	n := 0
+	for _, fn := range w.pkgFuncs() {
+		if !reach[fn] {
+			continue
+		}
+		instrsOf(fn, func(in ssa.Instruction) {
+			lk, ok := in.(*ssa.Lookup)
+			if !ok || lk.CommaOk {
+				return
+			}
+			m, ok := lk.X.Type().Underlying().(*types.Map)
+			if !ok {
+				return
+			}
+			if _, isIface := m.Elem().Underlying().(*types.Interface); isIface {
+				return
+			}
+			switch m.Elem().Underlying().(type) {
+			case *types.Basic:
+			default:
+				return // structs, slices, funcs: tables of the engine, not data
+			}
+			// the map is a data value (asserted from interface{}), and the element is boxed and returned
+			fromData := false
+			for _, o := range originChain(lk.X) {
+				if ex, ok := o.(*ssa.Extract); ok {
+					o = ex.Tuple
+				}
+				if ta, ok := o.(*ssa.TypeAssert); ok {
+					if it, ok := ta.X.Type().Underlying().(*types.Interface); ok && it.NumMethods() == 0 {
+						fromData = true
+					}
+				}
+			}
+			if !fromData || lk.Referrers() == nil {
+				return
+			}
+			returned := false
+			for _, ref := range *lk.Referrers() {
+				if mi, ok := ref.(*ssa.MakeInterface); ok && mi.Referrers() != nil {
+					for _, r2 := range *mi.Referrers() {
+						switch r2.(type) {
+						case *ssa.Return, *ssa.Phi, *ssa.Store:
+							returned = true
+						}
+					}
+				}
+			}
+			if !returned {
+				return
+			}
+			n++
+			r.bad("R20.10", ssaName(fn), "element of a typed data map handed out without the comma-ok form", w.posOf(lk.Pos()), "for a key that is not in the map this yields the zero value of "+m.Elem().String()+" (0, false, \"\") as if it were an entry: attribute access answers with a value where it must answer with nothing")
+		})
+	}
+	r.Counts["plain lookups in typed data maps that become template values"] = n
 }
